@@ -67,12 +67,12 @@ theorem nonmatching_template_irrelevant {σ : Type} (f : Nat) (items : List (Ite
 theorem declaration_order_pipeline {σ : Type} {f start : Nat} {end_ : Option Nat} {e tail : Event}
     {inner rest' : List (Item σ)} {mts mts1 : List (MT σ)} {idx : Nat} {t : MT σ}
     (hS : isStart e = true) (hsc : scan e start end_ 0 mts = (mts1, some idx)) (ht : mts1[idx]? = some t)
-    (hb : t.buffered = true) (hcl : Closed (evs inner)) (htail : isEnd tail = true) :
+    (hcl : Closed (evs inner)) (htail : isEnd tail = true) :
     run (f + 1) start end_ (.ev e :: (inner ++ .ev tail :: rest')) mts =
       (run f start (some (preEnd t idx)) inner (fired t idx mts1)).bind fun q3 =>
       (run f (idx + 1) end_ (evItems (instantiate t.body (e :: q3.2 ++ [tail]))) q3.1).bind fun q4 =>
       (run f start end_ rest' (updRange tail start (idx + 1) 0 q4.1)).map fun p => (p.1, q4.2 ++ p.2) :=
-  run_fire hS hsc ht hb hcl htail
+  run_fire hS hsc ht hcl htail
 
 /-- The template that fires is the first of the window, in declaration order, whose test accepts
     the START; every earlier one of the window was asked and declined. -/
